@@ -5,6 +5,10 @@ CONSTANT K5 = 1
 CONSTANT DeepN = 3
 CONSTANT DeepK = 0
 CONSTANT DeepMinLinks = 0
+CONSTANT OrdK = 5
+CONSTANT OrdS = 2
+CONSTANT OrdP = 4
+CONSTANT OrdFull = FALSE
 CONSTANT Mode = "machine"
 INIT Init
 NEXT Next
